@@ -81,7 +81,7 @@ MUTANTS["C08"] = [
     M("tp_min", ARCH, "throughput = max(max(data_port_pressure), reg_throughput)", "throughput = min(max(data_port_pressure), reg_throughput)", "R1"),
     M("pressure_data_only", ARCH, "                        instruction_form.port_pressure = [\n                            sum(x)\n                            for x in zip(\n                                data_port_pressure,\n                                self._machine_model.average_port_pressure(\n                                    instruction_data_reg.port_pressure\n                                ),\n                            )\n                        ]",
       "                        instruction_form.port_pressure = data_port_pressure", "R1"),
-    M("uops_reg_only", ARCH, "chain(instruction_data_reg.port_pressure, data_port_uops)", "chain(instruction_data_reg.port_pressure, [])", "R1"),
+    M("uops_reg_only", ARCH, "chain(reg_port_uops, data_port_uops)", "chain(reg_port_uops, [])", "R1"),
     M("wo_load_includes_load", ARCH, "                        latency_wo_load = reg_latency\n", "                        latency_wo_load = latency\n", "R1"),
     M("load_latency_always", ARCH, "                            self._machine_model.get_load_latency(reg_type)\n                            if INSTR_FLAGS.HAS_LD in instruction_form.flags\n                            else 0",
       "                            self._machine_model.get_load_latency(reg_type)\n                            if INSTR_FLAGS.HAS_ST in instruction_form.flags\n                            else 0", "R1"),
@@ -897,4 +897,26 @@ MUTANTS["C10"] += [
     M("a64_condition_after_immediate", PA, "(register ^ condition ^ immediate ^ memory ^ arith_immediate) | identifier", "(register ^ immediate ^ condition ^ memory ^ arith_immediate) | identifier", "R13", "eq / AL tie with an immediate label"),
     M("a64_offset_before_register_index", PA, 'pp.Optional(register_index ^ (immediate ^ arith_immediate).setResultsName("offset"))', 'pp.Optional((immediate ^ arith_immediate).setResultsName("offset") ^ register_index)', "R13"),
     M("a64_memory_moved_is_fine", PA, "register ^ (prefetch_op | immediate) ^ memory ^ arith_immediate ^ identifier", "register ^ memory ^ (prefetch_op | immediate) ^ arith_immediate ^ identifier", "SILENT", "memory ties with nothing"),
+]
+
+MUTANTS["C15"] += [
+    M("revert_compose_with_alternatives_map", ARCH, '                        reg_port_uops = instruction_data_reg.port_pressure\n                        if isinstance(reg_port_uops, dict):\n                            # multiple port utilization options: use the first one, as\n                            # average_port_pressure() does for the port pressure above\n                            reg_port_uops = reg_port_uops[0]\n                        instruction_form.port_uops = list(chain(reg_port_uops, data_port_uops))\n', '                        instruction_form.port_uops = list(\n                            chain(instruction_data_reg.port_pressure, data_port_uops)\n                        )\n', "R3", "revert of fix d3fabf7"),
+    M("compose_star_unpacks_map", ARCH, '                        reg_port_uops = instruction_data_reg.port_pressure\n                        if isinstance(reg_port_uops, dict):\n                            # multiple port utilization options: use the first one, as\n                            # average_port_pressure() does for the port pressure above\n                            reg_port_uops = reg_port_uops[0]\n                        instruction_form.port_uops = list(chain(reg_port_uops, data_port_uops))\n', '                        reg_port_uops = instruction_data_reg.port_pressure\n                        instruction_form.port_uops = [*reg_port_uops, *data_port_uops]\n', "R3", "star-unpacking a map yields its keys"),
+    M("found_path_list_copy_of_map", ARCH, "        instruction_form.port_uops = instruction_data.port_pressure\n", "        instruction_form.port_uops = list(instruction_data.port_pressure)\n", "R3", "round 4 seeded change: list(<map>) yields the keys"),
+    M("found_path_deepcopy_is_fine", ARCH, "        instruction_form.port_uops = instruction_data.port_pressure\n", "        instruction_form.port_uops = deepcopy(instruction_data.port_pressure)\n", "SILENT", "deepcopy keeps the container type"),
+    M("compose_first_option_by_values_is_fine", ARCH, '                        reg_port_uops = instruction_data_reg.port_pressure\n                        if isinstance(reg_port_uops, dict):\n                            # multiple port utilization options: use the first one, as\n                            # average_port_pressure() does for the port pressure above\n                            reg_port_uops = reg_port_uops[0]\n                        instruction_form.port_uops = list(chain(reg_port_uops, data_port_uops))\n', '                        reg_port_uops = instruction_data_reg.port_pressure\n                        if isinstance(reg_port_uops, dict):\n                            reg_port_uops = list(reg_port_uops.values())[0]\n                        instruction_form.port_uops = [*reg_port_uops, *data_port_uops]\n', "SILENT", "the map is resolved before it is unpacked"),
+]
+
+MUTANTS["C01"] += [
+    M("found_path_deepcopy_is_fine", ARCH, "        instruction_form.port_uops = instruction_data.port_pressure\n", "        instruction_form.port_uops = deepcopy(instruction_data.port_pressure)\n", "SILENT", "a type-preserving copy of the same container"),
+]
+
+MUTANTS["C08"] += [
+    M("roles_regform_retry_with_original_operands", "osaca/semantics/isa_semantics.py", "                        instruction_form.mnemonic[:-1], operands_reg\n", "                        instruction_form.mnemonic[:-1], instruction_form.operands\n", "R6", "round 4 seeded change: the suffix-less retry of the register-form role look-up can never hit, shrl $3,(%rdi) loses its load part"),
+]
+
+MUTANTS["C02"] += [
+    M("single_sweep", CLI, '        semantics.assign_optimal_throughput(kernel)\n        semantics.assign_optimal_throughput(kernel)\n', "        semantics.assign_optimal_throughput(kernel)\n", "P8", "round 4: one sweep leaves {0,1},{0,1},{2},{1,2} at 1.50 (optimum 1.333)"),
+    M("two_sweeps_as_loop_is_fine", CLI, '        semantics.assign_optimal_throughput(kernel)\n        semantics.assign_optimal_throughput(kernel)\n', "        for _ in range(2):\n            semantics.assign_optimal_throughput(kernel)\n", "SILENT", "same two sweeps"),
+    M("three_sweeps_is_fine", CLI, '        semantics.assign_optimal_throughput(kernel)\n        semantics.assign_optimal_throughput(kernel)\n', "        for _ in range(3):\n            semantics.assign_optimal_throughput(kernel)\n", "SILENT", "more sweeps are not fewer"),
 ]
